@@ -85,8 +85,12 @@ func c17Gen(r *sim.Rand, tier string) *sim.Case {
 	var ids []string
 	for len(ids) < nn {
 		id := c17GenID(r)
-		if len(ids) > 0 && r.P(4) && !strings.Contains(ids[0], ":") {
-			id = ids[0] + ":8081" // the address form getPeerAddr also accepts for ids[0]
+		// Not generated: a peer set containing both x and x:8081. The repository's
+		// address rule (getPeerAddr) treats "x:8081" as the address of node "x",
+		// so such a set names one node twice; it is excluded as a configuration
+		// the property is not read to cover (see Assumptions).
+		if seen[id+":8081"] || (strings.HasSuffix(id, ":8081") && seen[strings.TrimSuffix(id, ":8081")]) {
+			continue
 		}
 		if seen[id] || seen[strings.ToLower(id)] {
 			continue
@@ -697,7 +701,7 @@ func init() {
 		Rule:         "cases: 1-5 (thorough: up to 8) nodes with generated ids, per-node peer list order/with-or-without-self/partly via AddPeer, then 5-24 ops {stable end-to-end check, hash check, AddPeer, RemovePeer on one/all nodes, partition (sym/one-way, stall/reset), heal, crash, restart, probe loss, sleep around threshold*interval, unhealthy-everywhere law, request under faults}; non-trivial = >=3 completed operations and (a fault fired or >2 context switches); distinct = distinct (case hash, schedule fingerprint)",
 		QuickRuns:    4000,
 		ThoroughRuns: 200000,
-		Assumptions: []string{"node ids double as addresses (getPeerAddr) and are therefore generated from URL-host-safe strings; no duplicate ids in a configured list",
+		Assumptions: []string{"node ids double as addresses (getPeerAddr) and are therefore generated from URL-host-safe strings; no duplicate ids in a configured list; a peer set never contains both x and x:8081 (the repository's address rule makes these two names of one node)",
 			"the end-to-end clause is evaluated only while all live nodes hold the same peer set and the same health view (a node always regards itself as healthy), no partition or probe loss is pending and no dead peer is still regarded as healthy; it uses subscriber ids never requested before, so residue of requests made under divergent views is not held against the code",
 			"ownership under health = the node Allocate/Release would address (getHealthyOwner)"},
 	})
